@@ -1,10 +1,13 @@
 #!/bin/sh
 # usage: seedsweep.sh [ids...]   applies every kept seeded change to a scratch copy of /repo and runs the
-# quick check of its property: every one must be CAUGHT. Results: selftest/seedsweep.txt
+# quick check that meta.json names first under caught_by (usually the property's own): every one must be CAUGHT. Results: selftest/seedsweep.txt
 V=$(cd "$(dirname "$0")" && pwd)
 OUT="$V/selftest/seedsweep.txt"; [ $# -eq 0 ] && : > "$OUT"
 for d in ${*:-$(ls "$V/seeded")}; do
   S="$V/seeded/$d"; ID=$(echo "$d" | cut -d- -f1)
+  # the check named first in meta.json's caught_by ("C06 quick (also C03, C19)") is the one that must catch it
+  CB=$(python3 -c "import json,sys,re; m=re.match(r'(C\d\d)', json.load(open(sys.argv[1])).get('caught_by','')); print(m.group(1) if m else '')" "$S/meta.json" 2>/dev/null)
+  [ -n "$CB" ] && ID=$CB
   D=$(mktemp -d /tmp/mut-XXXXXX)
   rsync -a --exclude .git /repo/ "$D/repo/"
   if ! (cd "$D/repo" && patch -p1 -s --no-backup-if-mismatch < "$S/patch.diff" >/dev/null 2>&1); then echo "$d PATCH-DOES-NOT-APPLY" | tee -a "$OUT"; rm -rf "$D"; continue; fi
